@@ -30,8 +30,10 @@ type Account struct {
 
 // NewAccount draws a secp256k1 key from the tape.
 func NewAccount(t *kernel.Tape, name string) *Account {
-	for {
-		b := t.Bytes(32)
+	for i := 0; ; i++ {
+		// hashed together with the name so that a degenerate (shrunk, all-zero)
+		// tape still yields distinct accounts
+		b := crypto.Keccak256(t.Bytes(32), []byte(name), []byte{byte(i)})
 		// keep the scalar comfortably inside the group order and non-zero
 		b[0] &= 0x7f
 		b[31] |= 1
